@@ -107,7 +107,9 @@ ASMJIT_FAVOR_SIZE Error init_call_conv(CallConv& cc, CallConvId call_conv_id, co
         cc.set_passed_order(RegGroup::kVec, 0, 1, 2, 3, 4, 5, 6, 7);
         cc.set_passed_order(RegGroup::kMask, 0, 1, 2, 3, 4, 5, 6, 7);
         cc.set_passed_order(RegGroup::kX86_MM, 0, 1, 2, 3, 4, 5, 6, 7);
-        cc.set_preserved_regs(RegGroup::kGp, Support::lsb_mask<uint32_t>(8));
+        // All GP registers are preserved except the registers that carry the return value (EAX and EDX) - a
+        // preserved return register would be restored by the epilog.
+        cc.set_preserved_regs(RegGroup::kGp, Support::lsb_mask<uint32_t>(8) & ~Support::bit_mask<RegMask>(kZax, kZdx));
         cc.set_preserved_regs(RegGroup::kVec, Support::lsb_mask<uint32_t>(8) & ~Support::lsb_mask<uint32_t>(n));
 
         cc.set_natural_stack_alignment(16);
@@ -202,7 +204,9 @@ ASMJIT_FAVOR_SIZE Error init_call_conv(CallConv& cc, CallConvId call_conv_id, co
         cc.set_passed_order(RegGroup::kMask, 0, 1, 2, 3, 4, 5, 6, 7);
         cc.set_passed_order(RegGroup::kX86_MM, 0, 1, 2, 3, 4, 5, 6, 7);
 
-        cc.set_preserved_regs(RegGroup::kGp, Support::lsb_mask<uint32_t>(16));
+        // All GP registers are preserved except the registers that carry the return value (RAX and RDX) - a
+        // preserved return register would be restored by the epilog.
+        cc.set_preserved_regs(RegGroup::kGp, Support::lsb_mask<uint32_t>(16) & ~Support::bit_mask<RegMask>(kZax, kZdx));
         cc.set_preserved_regs(RegGroup::kVec, ~Support::lsb_mask<uint32_t>(n));
         break;
       }
